@@ -326,34 +326,34 @@ theorem Acc_iter {f : State → State} (hf : ∀ s, Acc s → Acc (f s)) : ∀ n
   | zero => intro s h; exact h
   | succ n ih => intro s h; exact ih _ (hf s h)
 
-theorem Acc_dataCmd (q : Quirks) (now : Nat) (c cid : Conn) (s : State) (cmd : Cmd) (h : Acc s) :
-    Acc (dataCmd q now c cid s cmd) := by
+theorem Acc_drain (q : Quirks) (s : State) (h : Acc s) : Acc (drain q s) := by
+  unfold drain
+  split
+  · exact Acc_iter (Acc_wakeOne q) _ _ h
+  · exact h
+
+theorem Acc_dataCore (q : Quirks) (now : Nat) (c cid : Conn) (s : State) (cmd : Cmd) (h : Acc s) :
+    Acc (dataCore q now c cid s cmd) := by
   cases cmd with
   | push op k vs =>
-    simp only [dataCmd]
+    simp only [dataCore]
     split
     · exact Acc_emit_none rfl h
-    · have hN : Acc (notifyN (if q.notifyPerElement then vs.length else 1) k
-          (emit { s with store := pushElems op k vs s.store, pushed := (s.pushed ++ vs.map fun v => (k, v)) } c
-            (.int (listOf (pushElems op k vs s.store) k).length))) := by
-        refine Acc_congr (notifyN_pushed _ _ _) (notifyN_out _ _ _) (notifyN_lost _ _ _) (notifyN_store _ _ _) ?_
-        apply Acc_emit_none rfl
-        unfold Acc
-        show (s.pushed ++ vs.map fun v => (k, v)).Perm (delivered s ++ s.lost ++ pushElems op k vs s.store)
-        refine (List.Perm.append_right _ h).trans ?_
-        show (delivered s ++ s.lost ++ s.store ++ vs.map fun v => (k, v)).Perm _
-        rw [List.append_assoc (delivered s ++ s.lost)]
-        exact List.Perm.append_left _ (pushElems_perm op k vs s.store).symm
-      split
-      · exact Acc_iter (Acc_wakeOne q) _ _ hN
-      · exact hN
+    · refine Acc_congr (notifyN_pushed _ _ _) (notifyN_out _ _ _) (notifyN_lost _ _ _) (notifyN_store _ _ _) ?_
+      apply Acc_emit_none rfl
+      unfold Acc
+      show (s.pushed ++ vs.map fun v => (k, v)).Perm (delivered s ++ s.lost ++ pushElems op k vs s.store)
+      refine (List.Perm.append_right _ h).trans ?_
+      show (delivered s ++ s.lost ++ s.store ++ vs.map fun v => (k, v)).Perm _
+      rw [List.append_assoc (delivered s ++ s.lost)]
+      exact List.Perm.append_left _ (pushElems_perm op k vs s.store).symm
   | pop op k =>
-    simp only [dataCmd]
+    simp only [dataCore]
     split
     · next e st' hp => exact Acc_pop_emit rfl (popElem_perm hp) h
     · exact Acc_emit_none rfl h
   | bpop op keys t =>
-    simp only [dataCmd]
+    simp only [dataCore]
     split
     · exact Acc_emit_none rfl h
     · split
@@ -365,6 +365,10 @@ theorem Acc_dataCmd (q : Quirks) (now : Nat) (c cid : Conn) (s : State) (cmd : C
         · exact Acc_setBlocked (Acc_congr (s := s) rfl rfl rfl rfl h)
   | multi => exact h
   | exec => exact h
+
+theorem Acc_dataCmd (q : Quirks) (now : Nat) (c cid : Conn) (s : State) (cmd : Cmd) (h : Acc s) :
+    Acc (dataCmd q now c cid s cmd) :=
+  Acc_drain q _ (Acc_dataCore q now c cid s cmd h)
 
 theorem Acc_foldl_dataCmd (q : Quirks) (now : Nat) (c cid : Conn) (cmds : List Cmd) :
     ∀ s, Acc s → Acc (cmds.foldl (dataCmd q now c cid) s) := by
@@ -399,11 +403,16 @@ theorem Acc_topCmd (q : Quirks) (now : Nat) (c : Conn) (s : State) (cmd : Cmd) (
     · exact Acc_emit_none rfl (Acc_setConn h)
     · exact Acc_dataCmd q now c c s _ h
 
-theorem Acc_foldl_topCmd (q : Quirks) (now : Nat) (c : Conn) (cmds : List Cmd) :
-    ∀ s, Acc s → Acc (cmds.foldl (topCmd q now c) s) := by
+theorem Acc_runBatch (q : Quirks) (now : Nat) (c : Conn) (cmds : List Cmd) :
+    ∀ s, Acc s → Acc (runBatch q now c cmds s) := by
   induction cmds with
   | nil => intro s h; exact h
-  | cons cmd r ih => intro s h; exact ih _ (Acc_topCmd q now c s cmd h)
+  | cons cmd r ih =>
+    intro s h
+    simp only [runBatch]
+    split
+    · exact Acc_setConn (Acc_topCmd q now c s cmd h)
+    · exact ih _ (Acc_topCmd q now c s cmd h)
 
 theorem Acc_timeoutConn (s : State) (c : Conn) (h : Acc s) : Acc (timeoutConn s c) := by
   unfold timeoutConn
@@ -423,7 +432,7 @@ theorem Acc_step (q : Quirks) (s : State) (e : Event) (h : Acc s) : Acc (step q 
   | conn c now cmds =>
     simp only [step]
     split
-    · exact Acc_foldl_topCmd q now c cmds s h
+    · exact Acc_runBatch q now c _ _ (Acc_setConn h)
     · exact h
   | timeouts now => exact Acc_iter (Acc_expireOne now) _ _ h
   | hangup c =>
